@@ -1,6 +1,6 @@
 // c13_exec executes one C13 case file in this (fresh) process and prints the digests.
 //
-//	c13_exec <case.json> [warm]
+//	c13_exec <case.json> [fresh|warm|check]
 //
 // Output: one line "C13-RESULT <json>" on stdout; exit 0.  Fixture problems: "C13-FIXTURE <why>", exit 4.
 // GOMAXPROCS comes from the environment and the CPU mask from taskset; both are echoed for the parent's log.
@@ -17,7 +17,7 @@ import (
 
 func main() {
 	if len(os.Args) < 2 {
-		fmt.Println("C13-FIXTURE usage: c13_exec <case.json> [warm]")
+		fmt.Println("C13-FIXTURE usage: c13_exec <case.json> [fresh|warm|check]")
 		os.Exit(4)
 	}
 	c13.Silence()
@@ -26,7 +26,11 @@ func main() {
 		fmt.Println("C13-FIXTURE", err)
 		os.Exit(4)
 	}
-	res, err := c13.Run(c, len(os.Args) > 2 && os.Args[2] == "warm")
+	mode := c13.ModeFresh
+	if len(os.Args) > 2 {
+		mode = os.Args[2]
+	}
+	res, err := c13.Run(c, mode)
 	if err != nil {
 		fmt.Println("C13-FIXTURE", err)
 		os.Exit(4)
